@@ -25,6 +25,10 @@
                                                     set_uvals / to_isotropic / frac_coords setter, fixes/C12_4) on a parsed or
                                                     add_atom-made atom, cart_coords belongs to the CURRENT position and the
                                                     tensor observables read the CURRENT U values
+    file_history_coherent, file_history_cart, cell_set_old_fails_on
+                                                    … and the same with in-place changes of the cell (shx.cell.set, fixes/C12_6)
+                                                    anywhere in the history: Shelxfile.orthogonal_matrix and the atoms'
+                                                    Cartesian coordinates belong to the CURRENT cell
   Not proved (stated, not hidden): rounding of IEEE doubles (every case of a run is compared at 1e-9), and the
   convergence of the QR iteration `misc.eigenvals`, which `is_npd` no longer uses after fixes/C12_3.
 -/
@@ -757,6 +761,59 @@ theorem frac_setter_old_fails_on :
         = mulVec (orthoM sqrtW cellW) q) := by
   intro hst
   have := congrArg V3.x (hst ⟨0, 0, 0⟩ ⟨1, 0, 0⟩)
+  revert this
+  decide +kernel
+
+/-- **file_history_coherent**: on one Shelxfile object, after ANY sequence of atom edits and in-place changes of the
+    cell (`shx.cell.set`), what is kept outside the CELL object belongs to the CURRENT cell: `Shelxfile.orthogonal_matrix`
+    is the orthogonalisation matrix of the current cell and the atom's Cartesian coordinates are its image of the
+    current position; cell, position and U values are the ones assigned last -/
+theorem file_history_coherent (sqrt : ℝ → ℝ) (s : FileSt ℝ) (es : List (FEdit ℝ))
+    (h0 : s.om = orthoM sqrt s.cell ∧ s.atom.cart = mulVec (orthoM sqrt s.cell) s.atom.frac) :
+    let t := fileHistory sqrt s es
+    t.om = orthoM sqrt t.cell ∧ t.atom.cart = mulVec (orthoM sqrt t.cell) t.atom.frac ∧
+    t.cell = specCell s.cell es ∧ t.atom.frac = specFrac s.atom.frac (atomEdits es) ∧
+    t.atom.uvals = specUvals s.atom.uvals (atomEdits es) := by
+  induction es generalizing s with
+  | nil => exact ⟨h0.1, h0.2, rfl, rfl, rfl⟩
+  | cons e es ih =>
+    have hstep : (applyF sqrt s e).om = orthoM sqrt (applyF sqrt s e).cell ∧
+        (applyF sqrt s e).atom.cart = mulVec (orthoM sqrt (applyF sqrt s e).cell) (applyF sqrt s e).atom.frac := by
+      cases e with
+      | atomEdit a => cases a <;> simp only [applyF, applyEdit] <;> first | exact h0 | exact ⟨h0.1, trivial⟩
+      | setCell c => exact ⟨rfl, rfl⟩
+    have := ih (applyF sqrt s e) hstep
+    simp only [fileHistory, List.foldl_cons] at this ⊢
+    refine ⟨this.1, this.2.1, ?_, ?_, ?_⟩
+    · rw [this.2.2.1]; cases e <;> rfl
+    · rw [this.2.2.2.1]; cases e with
+      | atomEdit a => cases a <;> rfl
+      | setCell c => rfl
+    · rw [this.2.2.2.2]; cases e with
+      | atomEdit a => cases a <;> rfl
+      | setCell c => rfl
+
+/-- so, if the cell the history leaves is valid, `Atom.cart_coords` and `Shelxfile.frac_to_cart` of the atom's position
+    are the conventional-setting image for the CURRENT cell, whatever was queried or changed before -/
+theorem file_history_cart {sqrt : ℝ → ℝ} (hs : IsSqrt sqrt) (c : Cell ℝ) (p : V3 ℝ) (u : U6 ℝ) (es : List (FEdit ℝ))
+    (h : ValidCell (specCell c es)) :
+    let t := fileHistory sqrt (readFile sqrt c (parseAtom (orthoM sqrt c) p u)) es
+    t.atom.cart = mulVec (cholUpper sqrt (metric (specCell c es))) (specFrac p (atomEdits es)) ∧
+    mulVec t.om t.atom.frac = mulVec (cholUpper sqrt (metric (specCell c es))) (specFrac p (atomEdits es)) := by
+  obtain ⟨h1, h2, h3, h4, _⟩ := file_history_coherent sqrt (readFile sqrt c (parseAtom (orthoM sqrt c) p u)) es ⟨rfl, rfl⟩
+  simp only at h1 h2 h3 h4 ⊢
+  have e3 : (fileHistory sqrt (readFile sqrt c (parseAtom (orthoM sqrt c) p u)) es).cell = specCell c es := h3
+  have e4 : (fileHistory sqrt (readFile sqrt c (parseAtom (orthoM sqrt c) p u)) es).atom.frac = specFrac p (atomEdits es) := h4
+  rw [ortho_is_cholesky hs _ h, h2, h1, e3, e4]
+  exact ⟨rfl, rfl⟩
+
+/-- `Command.set` before fixes/C12_6 broke it: one `shx.cell.set(…)` leaves the Cartesian coordinates of the old cell -/
+theorem cell_set_old_fails_on :
+    ¬ (∀ (d : Cell ℚ) (p : V3 ℚ),
+        (fileHistoryOld sqrtW (readFile sqrtW cellW (parseAtom (orthoM sqrtW cellW) p uW)) [.setCell d]).atom.cart
+          = mulVec (orthoM sqrtW d) p) := by
+  intro hst
+  have := congrArg V3.x (hst { cellW with a := 9 } ⟨1, 0, 0⟩)
   revert this
   decide +kernel
 
